@@ -169,6 +169,19 @@ def run(ctx):
             rej = [(k, e) for k, d, e in A if k in (["discr(a1)=Path"], ["discr(a1)=List"])]
             ok = len(rej) == 2 and all(e.startswith("core::result::Result::Err{darling_core::error::Error::with_span(darling_core::error::Error::unsupported_format(") for k, e in rej)
             ctx.ob("C13.G.helpers-reject-other-forms", (a if name == "preserve" else b).key, "Path/List => spanned error", ok, "%s" % rej)
+    # where-predicates: "the contents of the string re-parsed by the same grammar" – the list is read as
+    # the body of a where-clause (empty list and trailing comma included), i.e. through WhereClause's
+    # own conversion or syn's WhereClause parser, never through a hand-picked Punctuated parser
+    for h in ("from_string", "from_value"):
+        f = ctx.fn("<alloc::vec::Vec<syn::generics::WherePredicate> as %s>::%s" % (FM, h), required=False)
+        if f:
+            via = ctx.find_calls_deep(f, r"^<syn::generics::WhereClause as darling_core::from_meta::FromMeta>::(from_string|from_value)$", helpers=1)
+            direct = [t for _, t, o in ctx.find_calls_deep(f, r"^syn::parse_str$|^syn::lit::LitStr::parse$|^syn::parse::Parser::parse_str$|Parser>::parse_str$|^syn::lit::LitStr::parse_with$", helpers=1)]
+            direct_ok = all((mir.callee_info(t).get("targs") or [""])[0] == "syn::generics::WhereClause" for t in direct)
+            ctx.ob("C13.F.where-predicates-through-where-clause", f.key, "parsed as the body of a where-clause", (len(via) == 1 and not direct) or (not via and len(direct) == 1 and direct_ok),
+                   "%d delegations to WhereClause, other parser calls: %s" % (len(via), [(mir.callee_of(t), mir.callee_info(t).get("targs")) for t in direct]))
+            wh = [ctx.expr(o, a) for _, t, o in ctx.find_calls_deep(f, r"fmt::Arguments::<'_>::new", helpers=1) for a in t["args"][:1]]
+            ctx.ob("C13.F.where-predicates-through-where-clause", f.key, "`where ` prefix", any("where " in x for x in wh) or (not via and direct_ok and bool(direct)), "format pieces %s" % wh)
     # path lists and whole meta items in list position are read by NestedMeta's grammar: `::a::b`
     # must reach the item parser (necessary for "leading ::" of the property's grammar)
     from .C15 import item_grammar_rules
